@@ -14,7 +14,7 @@ import common
 from common import correspond
 
 TRUSTED = [
-    'Lean 4.33.0 kernel; axioms of every theorem in Props/C18.lean are printed and must be within {propext, Classical.choice, Quot.sound}',
+    'Lean 4.33.0 kernel; axioms of every theorem in Props/C18*.lean are printed and must be within {propext, Classical.choice, Quot.sound}',
     'harness/props/c18.py (generators, canonicalisation: null spaces and sign-pattern lists are compared as sorted lists because the code enumerates a Python set)',
     'Driver.lean / Drv/GF2.lean JSON glue',
     'numpy integer arithmetic on small 0/1 arrays',
